@@ -5,6 +5,9 @@ let () =
   let obs = Util.index_obs (Util.read_lines Sys.argv.(3)) in
   let run = match prop with
     | "C18" -> C18.run_case
+    | "C04" -> Dec.run_case
+    | "C05" -> C05.run_case
+    | "C02" -> C02.run_case
     | _ -> prerr_endline ("unknown property " ^ prop); exit 2 in
   List.iter
     (fun l ->
